@@ -18,7 +18,8 @@ RULE = ('cases = generated G-MAT settings (<= 3x3 nodes, exclusions, explicit pa
         'too-long vectors; oracle = R-CONN validity, range, fixed point, onto, equal vectors => equal matrices, listed '
         'design vectors == corrected vectors, >= 2 used values per variable; one evaluation = one (settings, encoder, '
         'imputer); non-trivial = >= 2 patterns with different matrix counts (or >= 3 matrices) and >= 1 vector imputed; '
-        'distinct by sha1(settings, combination)')
+        'distinct by sha1(settings, combination); second campaign: pattern encoders only on near-miss settings (one excluded '
+        'pair toggled / one degree list changed / one repeat flag flipped away from an exact pattern shape)')
 BUDGET = {'quick': 12, 'thorough': 250}
 MAX_ENUM = 400
 SPACE_MAX = 3000
@@ -44,6 +45,15 @@ def fuzz_strategy(tier):
     return st.fixed_dictionaries({'ms': st.one_of(matspec.mat_spec(max_side=3, max_patterns=3),
                                                   matspec.pattern_family_spec()),
                                   'vseed': ints(0, 2**31), 'combo': st.sampled_from(keys)})
+
+
+def extra_campaigns(tier):
+    # pattern encoders only (cheap: ~10 combinations per case) on settings one small step away from the exact pattern
+    # shapes: the boundary of every `_matches_pattern`
+    n = 120 if tier == 'quick' else 2500
+    strat = st.fixed_dictionaries({'ms': matspec.pattern_family_spec(always_near=True), 'vseed': ints(0, 2**31),
+                                   'groups': st.just(['pattern'])})
+    return [('pattern_near_miss', strat, n)]
 
 
 def registry():
@@ -270,6 +280,8 @@ def check_case(case):
     combos = registry()
     if 'combo' in case:
         combos = [c for c in combos if [c[0], c[1], c[2]] == list(case['combo'])]
+    if 'groups' in case:
+        combos = [c for c in combos if c[0] in case['groups']]
     sizes = [len(r) for r in refs]
     res.classes = [f'{len(ms["src"])}x{len(ms["tgt"])}', f'patterns{len(pats)}', 'family_'+ms.get('family', 'random')]
     n_eval = 0
